@@ -317,9 +317,26 @@ def r3(ctx, bearing):
             for v, (why, _) in sorted(SAME_NODE.items()):
                 calls = calls_in(prog, cc, arms.get(v, set()))
                 if v == "Matches":
-                    # compares the referenced id with the searched id
+                    # compares the referenced id with the searched id …
                     hit = any(c.name in ("eq", "ne") for c in calls) or any(True for bi2 in arms.get(v, set()) for s in cc.blocks[bi2]["s"] if s[0] == "A" and s[2][0] == "bin" and s[2][1] in ("Eq", "Ne"))
                     ctx.ob("R3", "check_cyclic/%s" % v, hit, "arm Matches compares the referenced rule id" if hit else "arm Matches does not compare the rule id", where=cc.loc())
+                    # … and follows the reference through the registration: the utils of a rule and of all its rewriters are
+                    # registered into ONE shared registration (supporting fact below), while the toposort only sees one map
+                    reach = set()
+                    for c in calls:
+                        for t in prog.call_targets(c):
+                            reach |= prog.reach([t])
+                    names = {prog.fns[r].name for r in reach if r in prog.fns}
+                    follows = "eval_local" in names and "check_cyclic" in names
+                    rr = prog.find_fns(r"rule_config::.*register_rewriters$")
+                    shared = False
+                    if len(rr) == 1:
+                        gm = [c for g in prog.family(rr[0]) for c in g.calls if c.name == "get_matcher_with_hint"]
+                        shared = any(g.in_loop(c.bb) if (g := c.fn) else False for c in gm)
+                    ctx.ob("R3", "check_cyclic/Matches follows the reference", follows or not shared,
+                           "check_cyclic resolves `matches` through the registration and recurses (register_rewriters inserts several utils maps into one registration: %s)" % shared if follows else
+                           "several `utils` maps (rule + each rewriter, in a loop over clones of one env) are registered into one registration, but the cycle check on insertion only compares the id of a direct reference and the toposort looks at one map at a time: a cycle spanning two maps is accepted -> unbounded recursion",
+                           where=cc.loc())
                     continue
                 hit = visits(prog, cc, calls, "check_cyclic", want_variant=v)
                 ctx.ob("R3", "check_cyclic/%s" % v, hit is not None,
